@@ -267,3 +267,90 @@ def tasks(tier, seed=0):
         ts.append(("fill_task", dict(kind="logistic", kw=cfgs[0][1], theory="F")))
         ts.append(("fill_task", dict(kind="logistic", kw=cfgs[0][1], theory="R", n_ind=2, n_vis=3)))
     return ts
+
+
+def kernel_task(shape, op):
+    """F (float32): the masked reductions of WeightedTensor never see what sits at zero-weight positions (NaN / inf / huge)."""
+    task = f"kernel[{op},shape={tuple(shape)}]"
+
+    def body():
+        rec = Recorder(PROP, task, [WeightedTensor.wsum, WeightedTensor.sum, WeightedTensor.filled, WeightedTensor.weighted_value.fget, sum_dim, wsum_dim, NormalFamily._nll])
+        hold = {}
+
+        def run():
+            v = st.sym("v", shape)
+            w = st.sym("w", shape, torch.bool)
+            fill = st.sym("fill", shape)
+            vB = st.mk(st.vmap(T.mk_ite, w.sym, v.sym, fill.sym), torch.float32)
+            hold.update(v=v, w=w, fill=fill)
+            outs = []
+            for val in (v, vB):
+                x = WeightedTensor(val, w)
+                if op == "wsum":
+                    outs.append(list(x.wsum()))
+                elif op == "sum_dim0":
+                    outs.append([sum_dim(x, but_dim=0)])
+                elif op == "wsum_dim_last":
+                    outs.append(list(wsum_dim(x, but_dim=-1)))
+                elif op == "weighted_value":
+                    outs.append([x.weighted_value])
+                elif op == "nll_sum":
+                    loc = st.sym("loc", shape, register=(val is v))
+                    sc = st.sym("scale", (), register=(val is v))
+                    outs.append([sum_dim(NormalFamily._nll(x, loc, sc), but_dim=0)])
+                elif op == "sqr_wsum":
+                    outs.append(list((x**2).wsum()))
+            return outs
+
+        for c, res in st.explore(run, "F"):
+            rec.end_path(c)
+            if isinstance(res, Exception):
+                raise res
+            v, w, fill = hold["v"], hold["w"], hold["fill"]
+            A, B = res
+
+            def rp(model):
+                return f"""
+from leaspy.utils.weighted_tensor import WeightedTensor, sum_dim, wsum_dim
+from leaspy.variables.distributions import NormalFamily
+v = {tensor_literal(v, model)}; w = {tensor_literal(w, model)}; fill = {tensor_literal(fill, model)}
+def run(val):
+    x = WeightedTensor(val, w); op = {op!r}
+    if op == 'wsum': return list(x.wsum())
+    if op == 'sum_dim0': return [sum_dim(x, but_dim=0)]
+    if op == 'wsum_dim_last': return list(wsum_dim(x, but_dim=-1))
+    if op == 'weighted_value': return [x.weighted_value]
+    if op == 'nll_sum': return [sum_dim(NormalFamily._nll(x, torch.zeros_like(val), torch.tensor(1.0)), but_dim=0)]
+    return list((x ** 2).wsum())
+clean = torch.where(w, v, torch.zeros_like(v))
+bad = []
+for f in (fill, torch.full_like(v, float('inf')), torch.full_like(v, float('nan')), torch.full_like(v, 1e30)):
+    a, b = run(clean), run(torch.where(w, v, f))
+    for x, y in zip(a, b):
+        same = torch.where(torch.isnan(x.float()), torch.isnan(y.float()), x == y)
+        if not bool(same.all()): bad.append((f.reshape(-1)[0].item(), x, y))
+print(bad); sys.exit(1 if bad else 0)
+"""
+
+            for k, (a, b) in enumerate(zip(A, B)):
+                ta, tb = st.to_terms(a), st.to_terms(b)
+                for idx in np.ndindex(*ta.shape):
+                    rec.prove(f"out{k}{list(idx)}", T.same_value(ta[idx], tb[idx]), replay=rp, key=f"C06:kernel:{op}", timeout_ms=60000,
+                              what="a masked reduction depends on the value stored at a zero-weight position")
+            if rec.paths == 1:
+                rec.sample({"op": op, "shape": list(shape), "fill": "arbitrary float32 incl. NaN/inf under the mask"})
+        return rec.result()
+
+    return guarded(PROP, task, body)
+
+
+_old_tasks = tasks
+
+
+def tasks(tier, seed=0):
+    ts = _old_tasks(tier, seed)
+    for op in ("wsum", "sum_dim0", "wsum_dim_last", "weighted_value", "nll_sum", "sqr_wsum"):
+        ts.append(("kernel_task", dict(shape=(2, 2), op=op)))
+        if tier == "thorough":
+            ts.append(("kernel_task", dict(shape=(2, 2, 2), op=op)))
+    return ts
